@@ -2,9 +2,11 @@
 ID = "C20"
 LEVEL = "proof"
 MODULES = ["contracts.comm", "contracts.schedule"]
-from contracts.schedule import _EVAL_BOUNDS
+from contracts.schedule import _EVAL_BOUNDS, _REF_BOUNDS
 FUNCTIONS = ["bacpypes.local.schedule:match_date", "bacpypes.local.schedule:match_date_range", "bacpypes.local.schedule:match_weeknday"] + [
-    "bacpypes.local.schedule:LocalScheduleInterpreter.eval[%d exceptions x %d time values, %d daily entries]" % b for b in _EVAL_BOUNDS]
+    "bacpypes.local.schedule:LocalScheduleInterpreter.eval[%d exceptions x %d time values, %d daily entries]" % b for b in _EVAL_BOUNDS] + [
+    "bacpypes.local.schedule:LocalScheduleInterpreter.eval[calendar reference with %d entries, %d time values, %d daily entries]" % b for b in _REF_BOUNDS] + [
+    "bacpypes.local.schedule:LocalScheduleInterpreter.eval[calendar reference to an unknown object]"]
 LEMMAS = []
 MIN_OBLIGATIONS = 10
 BOUNDED = "bounded.c20"
@@ -15,11 +17,12 @@ ASSUMPTIONS = [
     "process_task (timer re-arming, mktime/localtime) is covered by the bounded stage's timer-driven run only",
     "spec/schedule.py is a faithful transcription of clauses 12.24, 20.2.12 and 21 (hand-written)",
 ]
-NOT_DECIDED = ["eval for unbounded list lengths (nested loops over object lists)", "process_task / wall-clock conversion at proof level", "calendar-reference periods (need an application object)"]
+NOT_DECIDED = ["eval for unbounded list lengths (nested loops over object lists)", "process_task / wall-clock conversion at proof level", "calendar-reference periods in combination with a second exception (the reference units have one exception; the period test is the same code for every exception)"]
 EXPLANATION = ("The three date matchers are proved against the standard's definitions for every calendar date and every pattern octet. eval is proved, per "
                "structural bound, against a direct interpreter of clause 12.24: (i) the value, (ii) stability -- for a universally quantified probe time "
                "between the evaluated instant and the reported transition the standard's value is unchanged, (iii) the transition lies strictly after the "
-               "instant and not after the end of the day.")
+               "instant and not after the end of the day. Calendar-reference periods: the exception is in force exactly on the days on which some entry of the referenced "
+               "calendar object's date list matches (every entry is asked until one matches, 0..2 entries), a dangling reference is reported inside the effective period.")
 LEVEL_TEXT = ("Proof for all dates/patterns of the matchers (incl. open-ended ranges, last/odd/even day, odd/even month, week-of-month 1..9); proof of "
               "eval's value, stability and progress for all times/priorities/period outcomes within stated structural bounds; larger schedules, real "
               "object plumbing and timer-driven behaviour across the effective period are swept in the bounded stage.")
